@@ -153,11 +153,81 @@ fn family(report: &Report, names: &[&'static str], max_n: usize) {
     });
 }
 
+
+/// Dotted reads under shadowing.  The generator's probes read plain names; here the *outer*
+/// binding of `x` is an object that has member `a` and the *inner* binding (assign, capture, loop
+/// variable, include argument, a copied object) lacks it.  The innermost binding wins for paths
+/// too: the existence test `{% if x.a %}` is false, `{{ x.a }}` fails, and after the inner binding
+/// ends the outer one is visible again.  Expected outputs are written out by hand.
+fn dotted_shadowing(report: &Report) {
+    let partials = vec![("p".to_string(), "{% if x.a %}T{{ x.a }}{% else %}F{% endif %}".to_string()), ("q".to_string(), "[{{ v }}]".to_string())];
+    let parser = cfgs::build(Config::Stdlib, Policy::Eager, &partials).expect("parser");
+    let probe = "{% if x.a %}T{{ x.a }}{% else %}F{% endif %}";
+    let data = V::obj(&[
+        ("x", V::obj(&[("a", V::s("outer")), ("b", V::obj(&[("c", V::s("deep"))]))])),
+        ("o2", V::obj(&[("b", V::Int(1))])),
+        ("arr", V::Arr(vec![V::Int(1), V::obj(&[("b", V::Int(2))]), V::obj(&[("a", V::s("loop"))])])),
+        ("s", V::s("scalar")),
+    ]);
+    // (template, expected output or None = must be a render error)
+    let cases: Vec<(String, Option<&str>)> = vec![
+        (probe.to_string(), Some("Touter")),
+        (format!("{{% assign x = 'lit' %}}{probe}"), Some("F")),
+        (format!("{{% assign x = s %}}{probe}|{{% unless x.a %}}U{{% endunless %}}"), Some("F|U")),
+        (format!("{{% capture x %}}c{{% endcapture %}}{probe}"), Some("F")),
+        (format!("{{% assign x = o2 %}}{probe}|{{{{ x.b }}}}"), Some("F|1")),
+        (format!("{{% for x in arr %}}{probe},{{% endfor %}}{probe}"), Some("F,F,Tloop,Touter")),
+        (format!("{{% assign x = 'lit' %}}{{% for x in arr %}}{probe},{{% endfor %}}{probe}"), Some("F,F,Tloop,F")),
+        (format!("{{% for i in (1..2) %}}{{% assign x = i %}}{probe},{{% endfor %}}{probe}"), Some("F,F,F")),
+        ("{% include 'p' x: 'arg' %}|{% include 'p' %}".to_string(), Some("F|Touter")),
+        ("{% include 'p' x: o2 %}|{% render 'p', x: s %}|{% render 'p', x: x %}|{% render 'p' %}".to_string(), Some("F|F|Touter|F")),
+        (format!("{{% increment x %}}{probe}"), Some("0Touter")),
+        (format!("{{% if x.b.c %}}D{{% endif %}}{{% assign x = o2 %}}{{% if x.b.c %}}D{{% else %}}E{{% endif %}}"), Some("DE")),
+        // arguments are evaluated in the caller's scope with the optional lookup: a member missing on the innermost binding is an error
+        ("{% assign x = 'lit' %}{% include 'q' v: x.a %}".to_string(), None),
+        ("{% assign x = 'lit' %}{% render 'q', v: x.a %}".to_string(), None),
+        ("{% include 'q' v: x.a %}".to_string(), Some("[outer]")),
+        // the failing forms
+        ("{% assign x = 'lit' %}{{ x.a }}".to_string(), None),
+        ("{% assign x = 'lit' %}{% if x.a == 'outer' %}T{% endif %}".to_string(), None),
+        ("{% for x in arr %}{{ x.a }}{% endfor %}".to_string(), None),
+        ("{% capture x %}c{% endcapture %}{% assign y = x.a %}".to_string(), None),
+    ];
+    let mut n = 0u64;
+    for (i, (text, want)) in cases.iter().enumerate() {
+        n += 1;
+        report.eval();
+        let (actual, _) = cfgs::run_case(&parser, text, &data.to_object());
+        let ok = match (&actual, want) {
+            (Outcome::Ok(s), Some(w)) => s == w,
+            (Outcome::RenderErr(_), None) => true,
+            _ => false,
+        };
+        if !ok {
+            let class = match (&actual, want) {
+                (Outcome::Panic(_), _) => "panic",
+                (Outcome::Ok(_), None) => "expected-error-got-output",
+                (Outcome::Ok(_), Some(_)) => "output-differs",
+                _ => "expected-output-got-error",
+            };
+            report.violation(&format!("C04|dotted-shadowing|{class}"), i as u64, cmp::witness(text, &data, &partials), format!("{text}: expected {want:?} got {}", actual.short()));
+        } else if let Outcome::Ok(s) = &actual {
+            report.outcome(s);
+        }
+    }
+    report.states.fetch_add(n, Ordering::Relaxed);
+    report.transitions.fetch_add(n, Ordering::Relaxed);
+    report.traces.fetch_add(n, Ordering::Relaxed);
+    report.nontrivial.fetch_add(n, Ordering::Relaxed);
+    report.family(FamilyStat { name: "dotted reads under shadowing".into(), cases: n, nontrivial: n, skipped: 0, note: "outer object with member a; inner binding (assign, capture, copied object, loop variable, include/render argument, counter) without it; existence tests, outputs, comparisons and argument values; hand-written expectations".into() });
+}
+
 pub fn run(tier: Tier) -> i32 {
     let report = Report::new("C04", tier, "model_checking");
     report.set_rule("every program with 1..N statement nodes (nesting <= 4) over assign/copy/increment/decrement/output/include leaves and capture/for/if compounds on a reused 2-3 name alphabet is unranked from its index (no repetition), instrumented with non-raising probes of every name after every statement and at the start of every body, and rendered on 4 caller data objects; states = programs, transitions = (program, data) executions, traces_validated = executions whose complete output or error status was compared with the reference interpreter; non-trivial = predicted output shows at least one binding");
     report.assume("reference interpreter refliquid (harness/lqv-core/src/refl.rs) is the model; values are truthy so that probes are exact");
     family(&report, &["x", "y"], 3);
+    dotted_shadowing(&report);
     if tier.thorough() {
         family(&report, &["x", "y"], 4);
         family(&report, &["x", "y", "z"], 3);
